@@ -2,6 +2,8 @@ import BppModel.Proto
 import BppModel.OptimSpec
 import BppModel.OptimOneDim
 import BppModel.OptimMulti
+import BppModel.OptimLine
+import BppModel.OptimMeta
 /-
 Driver for C10 (optimisers).  Script grammar: see harness/C10.cpp.
 
@@ -76,13 +78,19 @@ def pCon : List String → Option (Option (Interval Float) × List String)
     | _, _ => none
   | _ => none
 
-def pNamed : Nat → List String → Option (List (Nat × Float × Option (Interval Float)) × List String)
+/-- an optional `P <precision>` after a constraint -/
+def pPrec : List String → Float × List String
+  | "P" :: h :: r => ((pF h).getD 0, r)
+  | r => (0, r)
+
+def pNamed : Nat → List String → Option (List (Nat × Float × Option (Interval Float) × Float) × List String)
   | 0, r => some ([], r)
   | k + 1, ix :: v :: r =>
     match nat? ix, pF v, pCon r with
     | some ix, some v, some (c, r') =>
-      match pNamed k r' with
-      | some (l, r'') => some ((ix, v, c) :: l, r'')
+      let (prec, r1) := pPrec r'
+      match pNamed k r1 with
+      | some (l, r'') => some ((ix, v, c, prec) :: l, r'')
       | none => none
     | _, _, _ => none
   | _, _ => none
@@ -110,6 +118,10 @@ inductive OptSt
   | simple (s : St FnF (Simple Float) Float)
   | snewton (s : St FnF (SNewton Float) Float)
   | simplex (s : St FnF (Simplex Float) Float)
+  | powell (s : St FnF (Powell Float) Float)
+  | cg (s : St FnF (Cg Float) Float)
+  | bfgs (s : St FnF (Bfgs Float) Float)
+  | metaopt (s : St FnF (Meta Float) Float)
 deriving Inhabited
 
 structure Hint where
@@ -139,6 +151,8 @@ structure S where
   cons : Spec.Cons Float := []
   startVal : Option Float := none
   curInit : Option Float := none
+  /-- the optimiser's current value after the previous init / step / optimize -/
+  lastCur : Option Float := none
   inactive : Bool := true
   implDead : Bool := false
 
@@ -163,6 +177,10 @@ def coreOf : OptSt → Option (Core Float × FnF)
   | .simple s => some (s.core, s.fn)
   | .snewton s => some (s.core, s.fn)
   | .simplex s => some (s.core, s.fn)
+  | .powell s => some (s.core, s.fn)
+  | .cg s => some (s.core, s.fn)
+  | .bfgs s => some (s.core, s.fn)
+  | .metaopt s => some (s.core, s.fn)
   | _ => none
 
 def clearLog : OptSt → OptSt
@@ -173,6 +191,24 @@ def clearLog : OptSt → OptSt
   | .simple s => .simple { s with fn := { s.fn with log := [] } }
   | .snewton s => .snewton { s with fn := { s.fn with log := [] } }
   | .simplex s => .simplex { s with fn := { s.fn with log := [] } }
+  | .powell s => .powell { s with fn := { s.fn with log := [] } }
+  | .cg s => .cg { s with fn := { s.fn with log := [] } }
+  | .bfgs s => .bfgs { s with fn := { s.fn with log := [] } }
+  | .metaopt s => .metaopt { s with fn := { s.fn with log := [] } }
+  | o => o
+
+def mapCore (f : Core Float → Core Float) : OptSt → OptSt
+  | .gss s => .gss { s with core := f s.core }
+  | .brent s => .brent { s with core := f s.core }
+  | .nback s => .nback { s with core := f s.core }
+  | .newton1 s => .newton1 { s with core := f s.core }
+  | .simple s => .simple { s with core := f s.core }
+  | .snewton s => .snewton { s with core := f s.core }
+  | .simplex s => .simplex { s with core := f s.core }
+  | .powell s => .powell { s with core := f s.core }
+  | .cg s => .cg { s with core := f s.core }
+  | .bfgs s => .bfgs { s with core := f s.core }
+  | .metaopt s => .metaopt { s with core := f s.core }
   | o => o
 
 def logStr (fn : FnF) : String :=
@@ -183,8 +219,8 @@ def stateStr (c : Core Float) (fn : FnF) : String :=
   " cur=" ++ canon c.cur ++ " n=" ++ toString c.nbEval ++ " t=" ++ showBool c.tol
   ++ " P" ++ vs (values c.params) ++ " F" ++ vs fn.point ++ logStr fn
 
-def mkParams (l : List (Nat × Float × Option (Interval Float))) : PList Float :=
-  l.map (fun t => ⟨t.1, ⟨t.2.1, 0, t.2.2, false⟩⟩)
+def mkParams (l : List (Nat × Float × Option (Interval Float) × Float)) : PList Float :=
+  l.map (fun t => ⟨t.1, ⟨t.2.1, t.2.2.2, t.2.2.1, false⟩⟩)
 
 /-- the freshly constructed optimiser of the script's `opt` line (constructor defaults of each class) -/
 def mkOpt (s : S) : OptSt :=
@@ -220,6 +256,21 @@ def mkOpt (s : S) : OptSt :=
     .snewton { core := mkCore s.pol s.mx (tol 0.000001) 0, fn := s.fn0, ext := SNewton.fresh }
   | "simplex", _ =>
     .simplex { core := mkCore s.pol s.mx (tol 0.000001) 0, fn := s.fn0, ext := Simplex.fresh }
+  | "powell", _ =>
+    .powell { core := mkCore s.pol s.mx (tol 0.000001) 0, fn := s.fn0, ext := Powell.fresh }
+  | "cg", _ =>
+    .cg { core := mkCore s.pol s.mx (tol 0.000001) 0, fn := s.fn0, ext := Cg.fresh }
+  | "bfgs", _ =>
+    .bfgs { core := mkCore s.pol s.mx (tol 0.000001) 0, fn := s.fn0, ext := Bfgs.fresh }
+  | "meta", ty :: r =>
+    -- first half of the function's parameters: coordinate-wise Brent; second half: BFGS (harness/C10.cpp)
+    let h := (s.n + 1) / 2
+    let ext : Meta Float :=
+      { n := (r.head?.bind nat?).getD 2, full := ty == "full", g1 := List.range h, g2 := (List.range (s.n - h)).map (· + h), p1 := [], p2 := [],
+        c1 := mkCore .keep 1000000 0.000001 0, e1 := Simple.fresh,
+        c2 := mkCore .keep 1000000 0.000001 0, e2 := Bfgs.fresh,
+        stepCount := 0, initialValue := -1, precisionStep := -1 }
+    .metaopt { core := mkCore s.pol s.mx (tol 0.000001) 0, fn := s.fn0, ext := ext }
   | _, _ => .unmodelled
 
 /-- result of a model call on the optimiser -/
@@ -241,6 +292,10 @@ def runInit (s : S) (pl : PList Float) : MRes :=
   | .simple st => w .simple ((simpleAlgo I fuelOf).init st pl)
   | .snewton st => w .snewton ((snewtonAlgo I fuelOf).init st pl)
   | .simplex st => w .simplex ((simplexAlgo I).init st pl)
+  | .powell st => w .powell ((powellAlgo I fuelOf).init st pl)
+  | .cg st => w .cg ((cgAlgo I fuelOf).init st pl)
+  | .bfgs st => w .bfgs ((bfgsAlgo I fuelOf).init st pl)
+  | .metaopt st => w .metaopt ((metaAlgo I Float.log10 fuelOf).init st pl)
   | o => .ok o none
 
 def runStep (s : S) : MRes :=
@@ -257,6 +312,10 @@ def runStep (s : S) : MRes :=
   | .simple st => w .simple ((simpleAlgo I fuelOf).step st)
   | .snewton st => w .snewton ((snewtonAlgo I fuelOf).step st)
   | .simplex st => w .simplex ((simplexAlgo I).step st)
+  | .powell st => w .powell ((powellAlgo I fuelOf).step st)
+  | .cg st => w .cg ((cgAlgo I fuelOf).step st)
+  | .bfgs st => w .bfgs ((bfgsAlgo I fuelOf).step st)
+  | .metaopt st => w .metaopt ((metaAlgo I Float.log10 fuelOf).step st)
   | o => .ok o none
 
 def runOptimize (s : S) : MRes :=
@@ -273,6 +332,10 @@ def runOptimize (s : S) : MRes :=
   | .simple st => w .simple ((simpleAlgo I fuelOf).optimize fuelOf st)
   | .snewton st => w .snewton ((snewtonAlgo I fuelOf).optimize fuelOf st)
   | .simplex st => w .simplex (simplexOptimize I fuelOf st)
+  | .powell st => w .powell (powellOptimize I fuelOf st)
+  | .cg st => w .cg ((cgAlgo I fuelOf).optimize fuelOf st)
+  | .bfgs st => w .bfgs ((bfgsAlgo I fuelOf).optimize fuelOf st)
+  | .metaopt st => w .metaopt ((metaAlgo I Float.log10 fuelOf).optimize fuelOf st)
   | o => .ok o none
 
 def modelled (o : OptSt) : Bool :=
@@ -330,10 +393,13 @@ def marginOk (cons : Spec.Cons Float) (pt : List Float) : Bool :=
 def writeInto (pt : List Float) (names : List Nat) (vals : List Float) : List Float :=
   (names.zip vals).foldl (fun p nv => p.set nv.1 nv.2) pt
 
-/-- kinds whose evaluation counter is known to undercount (line minimisations: the evaluations of
-each bracketing are not counted; Newton: one count per step whatever the number of
-Felsenstein-Churchill corrections) are reported under a clause of their own -/
-def lineMinKinds : List String := ["powell", "cg", "simple", "snewton", "meta", "newton1"]
+/-- kinds whose evaluation counter is known to undercount (coordinate-wise optimisers: the evaluations
+of each bracketing / initialisation of the one-dimensional optimiser are not counted; Newton: one count
+per step whatever the number of Felsenstein-Churchill corrections; meta: built on them) are reported
+under a clause of their own.  Powell, conjugate gradient and BFGS count every evaluation since the
+repair of `lineMinimization` / `lineSearch` (`powell_budget_calls`, …): for them, and for the other
+optimisers, more calls than the cap before the last step begins is a violation. -/
+def lineMinKinds : List String := ["simple", "snewton", "meta", "newton1"]
 
 def verdictRun (s : S) (o : String) (t : List String) : S × String :=
   let status := t.headD ""
@@ -348,8 +414,8 @@ def verdictRun (s : S) (o : String) (t : List String) : S × String :=
   else
   let pvals := (section_ t "P" markers).filterMap pF
   let fvals := (section_ t "F" markers).filterMap pF
-  let s1 := { s1 with fpoint := fvals }
   let cur := ((field t "cur=").bind pF).getD (0.0 / 0.0)
+  let s1 := { s1 with fpoint := fvals, lastCur := some cur }
   -- feasibility of every evaluation and of the reported point
   if s.pol != .ignore && !Spec.feasibleLog s.cons log then
     (s1, if s.pol == .auto then "FAIL:auto_policy_feasible" else "FAIL:keep_policy_feasible") else
@@ -366,6 +432,11 @@ def verdictRun (s : S) (o : String) (t : List String) : S × String :=
     ({ s1 with curInit := some cur, startVal := some start }, "ok")
   else
   let ret := (field t "v=").bind pF
+  -- no call ends above the value the previous call ended on (every `doStep` of these optimisers returns
+  -- a value not above the current one: `*_step_descent`; the golden section search only as a whole run,
+  -- Newton backtracking reports its trials)
+  let mono := s.kind != "nback" && (o == "optimize" || s.kind != "gss")
+  if mono && !Spec.descent cur (s.lastCur.getD (1.0 / 0.0)) then (s1, "FAIL:step_descent") else
   if o == "step" then (s1, "ok") else
   -- optimize
   if ret != none && !(ret.getD 0 == cur) then (s1, "FAIL:returned_is_current") else
@@ -383,7 +454,7 @@ def verdictRun (s : S) (o : String) (t : List String) : S × String :=
   if nbackOk && !Spec.descent cur (s.curInit.getD (1.0 / 0.0)) then (s1, "FAIL:descent_from_init") else
   if !Spec.exitReason s.mx nb tolR then (s1, "FAIL:exit_reason") else
   if steps ≥ 2 && !Spec.budget s.mx nb (some (pn + 1).toNat) then (s1, "FAIL:budget") else
-  if steps ≥ 2 && pe > (s.mx : Int) then
+  if steps ≥ 2 && !Spec.budgetCalls s.mx pe.toNat then
     (s1, if lineMinKinds.contains s.kind then "FAIL:budget_calls_undercount" else "FAIL:budget_calls") else
   -- convergence on strictly convex quadratics, constraints never active, a real budget
   match s.hint with
@@ -444,6 +515,11 @@ def step (s : S) (op : List String) (impl : Option (List String)) : S × String 
     let s1 := { s with kind := kind, pol := pol, tolGiven := if tol == "-" then none else pF tol, mx := (nat? mx).getD 0,
                        extra := extra, fn0 := fn0 }
     ({ s1 with opt := mkOpt s1 }, "ok", "ok")
+  | ["clone"] => (s, "ok", "ok")       -- a copy of an optimiser behaves like the original
+  | ["setmax", n] =>
+    match nat? n with
+    | some n => ({ s with mx := n, opt := mapCore (fun c => { c with nbEvalMax := n }) s.opt }, "ok", "ok")
+    | none => (s, "bad-op", "-")
   | "bracket" :: mode :: a :: b :: nint :: ix :: v :: r =>
     match pF a, pF b, nat? nint, nat? ix, pF v, pCon r with
     | some a, some b, some nint, some ix, some v, some (c, r') =>
@@ -470,8 +546,10 @@ def step (s : S) (op : List String) (impl : Option (List String)) : S × String 
         let pl := mkParams l
         -- what the predicates need
         let names := l.map (·.1)
-        let start := s.obj (writeInto s.fpoint names (l.map (·.2.1)))
-        let s0 := { s with names := names, cons := l.map (fun t => (t.1, t.2.2)), startVal := some start, curInit := none, inactive := true }
+        -- the starting point: the function's point with the values of the list written into it (the
+        -- meta-optimiser starts from the function's own point: its doInit reads the values back)
+        let start := if s.kind == "meta" then s.obj s.fpoint else s.obj (writeInto s.fpoint names (l.map (·.2.1)))
+        let s0 := { s with names := names, cons := l.map (fun t => (t.1, t.2.2.1)), startVal := some start, curInit := none, inactive := true }
         let (s1, out) : S × String :=
           if s0.modelDead || !modelled s0.opt then (s0, "-") else answer s0 (runInit s0 pl)
         match impl with
